@@ -106,7 +106,8 @@ theorem decProtected_no_panic (w : Wire) : decProtected w ≠ .panic := by
           have h1 := labelsOK_no_panic kvs []
           have h2 := decodePairs_no_panic kvs []
           cases hl : labelsOK kvs [] <;> cases hd : decodePairs kvs [] <;> simp_all [bind, Out.bind]
-          split <;> simp
+          all_goals repeat' split
+          all_goals simp
         · simp
   · simp
 
